@@ -346,6 +346,19 @@ def subcircuit_cases(draw, tier):
         nl = dict(nl, gates=nl['gates'] + [[a, t[0], [p, q]], [b, t[1], [a, p]], [r, t[2], [b, a]]], outputs=nl['outputs'] + [r])
         roots = [sum(1 for g in nl['gates'] if g[1] != 'INPUT') - 1]
         grow = [25]
+    unmark = draw(st.sampled_from([0, 0, 0, 1, 2]))
+    if fault == 'downstream_input' and draw(st.booleans()):
+        # by construction: the cone is one gate in DEAD logic (no output reads it) with a dead user; the replacement is
+        # made to read that user, and its mapped output is not marked - a cycle that only a search starting at the
+        # inserted gates themselves can see
+        used = {g[0] for g in nl['gates']}
+        a, u = [x if x not in used else x + '_' for x in ('dd_a', 'dd_u')]
+        p, q = nl['inputs'][0], nl['inputs'][-1]
+        t = draw(st.sampled_from(['AND', 'OR', 'XOR', 'NOR', 'LT']))
+        nl = dict(nl, gates=nl['gates'] + [[a, t, [p, q]], [u, draw(st.sampled_from(['NOT', 'IFF'])), [a]]])
+        roots = [sum(1 for g in nl['gates'] if g[1] != 'INPUT') - 2]
+        grow = []
+        unmark = draw(st.sampled_from([1, 1, 2, 0]))
     return {'nl': nl, 'route': draw(gen.routes(nl)), 'blocks': _blocks(draw, nl) if draw(st.booleans()) else [],
             'roots': roots,
             'grow': grow,
@@ -353,7 +366,7 @@ def subcircuit_cases(draw, tier):
             'label_mode': draw(st.sampled_from(['fresh', 'fresh', 'same_boundary'])),
             'fault': fault,
             'reuse_victim_label': draw(st.booleans()),
-            'unmark': draw(st.sampled_from([0, 0, 0, 1, 2])),
+            'unmark': unmark,
             # the replacement is a circuit like any other: parsed from text with forward references, renamed, ...
             'sub_route': draw(gen.free_routes()),
             'uuid_seed': draw(st.integers(0, 2 ** 20))}
